@@ -313,6 +313,93 @@ def replay_lookup(versioned):
         return {'input': 'get_predictor history', 'dialect': 'mindsdb', 'fires': False, 'observed': f'{type(e).__name__}: {e}'[:120]}
 
 
+# ------------------------------------------------------------------ sub-selects: inline only if everything in them lives on the main integration
+def nested_obligations(rep):
+    from mindsdb_sql.parser.ast import Select, Parameter, Identifier
+    fn = f'{QP}:QueryPlanner.get_nested_selects_plan_fnc.find_selects'
+    cases = {'main-only': ({'main'}, 0), 'main+other': ({'main', 'other'}, 0), 'other-only': ({'other'}, 0), 'none': (set(), 0), 'main+model': ({'main'}, 1), 'other+model': ({'other'}, 1)}
+    for cname, (ints, mdb) in cases.items():
+        for force in (False, True):
+            for kind in ('select', 'other'):
+                if kind == 'other' and (cname != 'main-only' or force):
+                    continue
+
+                def run(ex, ints=ints, mdb=mdb, force=force, kind=kind):
+                    planner = SymObj(None, 'self', prov='param')
+                    planner.known_not_none = True
+                    asked = []
+
+                    def gqi(ex_, a, k):
+                        asked.append(a[0])
+                        return {'integrations': set(ints), 'mdb_entities': [object()] * mdb, 'predictors': [], 'user_functions': []}
+                    planner.fields['get_query_info'] = Stub(gqi, 'get_query_info')
+                    planned = []
+
+                    def plan_select(ex_, a, k):
+                        st_ = SymObj(None, 'last_step', prov='fresh')
+                        st_.known_not_none = True
+                        st_.fields['result'] = SymObj(None, 'sub_result', prov='fresh')
+                        planned.append((a[0], st_))
+                        return st_
+                    planner.fields['plan_select'] = Stub(plan_select, 'plan_select')
+                    clo = pysym.closure_of(QP, 'QueryPlanner.get_nested_selects_plan_fnc')
+                    clo.no_stub = True
+                    cb = ex.call_closure(clo, [planner, 'main'], {'force': force})
+                    node = SymObj({Select if kind == 'select' else Identifier}, 'node', prov='param')
+                    node.known_not_none = True
+                    node.fields.update(parentheses=True, alias=None)
+                    r = ex.call(cb, [node], {'is_table': False, 'is_target': False, 'parent_query': None})
+                    ex.path_state.update(node=node, planned=planned, r=r)
+                    return r
+
+                def post(ex, o, ints=ints, mdb=mdb, force=force, kind=kind):
+                    if o.kind != 'return':
+                        return f'raises {getattr(o.value, "__name__", o.value)}'
+                    st = o.state
+                    inline_ok = (not force) and ints == {'main'} and mdb == 0
+                    if kind == 'other':
+                        return None if (st['r'] is None and not st['planned']) else 'a node that is not a sub-select is replaced'
+                    if st['r'] is None:
+                        if not inline_ok:
+                            return f'a sub-select using integrations {sorted(ints)} and {mdb} mindsdb entit{"y" if mdb == 1 else "ies"} (force={force}) is left inside the query sent to the main integration'
+                        return None
+                    if len(st['planned']) != 1 or st['planned'][0][0] is not st['node']:
+                        return 'the sub-select is replaced without being planned exactly once'
+                    r = st['r']
+                    if not (isinstance(r, SymObj) and r.cls is Parameter and r.fields.get('value') is st['planned'][0][1].fields['result']):
+                        return f'the sub-select is replaced by {r!r}, not by a placeholder for its own result'
+                    return None
+                ex = pysym.Executor()
+                try:
+                    outs = ex.explore(run)
+                    bad = next((r for r in (post(ex, o) for o in outs) if r), None)
+                    v = pysym.Verdict(FAILED, bad) if bad else pysym.Verdict(PROVED, f'{len(outs)} path(s)', ex.solver_time)
+                except (Unsupported, PathLimit) as e:
+                    v = pysym.Verdict(UNDECIDED, f'{type(e).__name__}: {e}')
+                _emit(rep, f'C10.nested.{cname}.force{int(force)}.{kind}', v, fn,
+                      'a sub-select stays inside the pushed query only if every table of it lives on the main integration and it uses no mindsdb entity (and the integration is not an api); otherwise it is planned once and replaced by a placeholder for its result',
+                      replay=lambda: replay_nested())
+
+
+def replay_nested():
+    from mindsdb_sql.planner.steps import FetchDataframeStep
+    for sql in ('SELECT * FROM int1.tbl1 WHERE a IN (SELECT x.id FROM int1.tbl2 AS x JOIN int2.tbl3 AS y ON x.id = y.id)',
+                'SELECT a, (SELECT max(y.b) FROM int1.tbl2 AS x JOIN int2.tbl3 AS y ON x.id = y.id) FROM int1.tbl1'):
+        try:
+            q, pl, plan, e, kw = plans.run_scenario({'source': 'replay', 'sql': sql, 'catalog': 'names'})
+            if e is not None:
+                continue
+            for st_ in plan.steps:
+                if isinstance(st_, FetchDataframeStep):
+                    for t in tables_of(st_.query):
+                        first = t.parts[0].lower() if len(t.parts) > 1 else None
+                        if first in set(pl.databases) and first != str(st_.integration).lower():
+                            return {'input': sql, 'dialect': 'mindsdb', 'fires': True, 'observed': f'the query sent to {st_.integration!r} mentions {t.to_string()!r}: `{str(st_.query)[:160]}`', 'expected': 'only tables of that integration'}
+        except Exception as e:
+            return {'input': sql, 'dialect': 'mindsdb', 'fires': False, 'observed': f'{type(e).__name__}: {e}'[:120]}
+    return {'input': 'sub-selects joining two integrations', 'dialect': 'mindsdb', 'fires': False, 'observed': 'every fetch mentions only its own tables'}
+
+
 # ------------------------------------------------------------------ qualifier stripping callback
 def strip_obligations(rep):
     from mindsdb_sql.parser.ast import Identifier
@@ -488,6 +575,13 @@ def bounded(rep, tier):
             got = {s.integration for s in plan.steps if isinstance(s, FetchDataframeStep)}
             if got != want:
                 fails.setdefault(f'C10.bounded.integrations.{qname.split(":")[0]}', (sql, f'[{cname}] fetches from {sorted(map(str, got))}, tables resolve to {sorted(map(str, want))}'))
+            # (a') no fetch query mentions a table that belongs to another integration
+            for st_ in plan.steps:
+                if isinstance(st_, FetchDataframeStep) and st_.query is not None:
+                    for t in tables_of(st_.query):
+                        first = t.parts[0].lower() if len(t.parts) > 1 else None
+                        if first in dbs and first != str(st_.integration).lower():
+                            fails.setdefault(f'C10.bounded.foreign-table.{qname.split(":")[0]}', (sql, f'[{cname}] the query sent to {st_.integration!r} mentions {t.to_string()!r}: `{str(st_.query)[:140]}`'))
             # (b) letter case of qualifiers does not matter
             sql_up = re.sub(r'\b(int1|int2|api1|proj|mindsdb)\.', lambda m: m.group(1).upper() + '.', sql)
             if sql_up != sql:
@@ -524,6 +618,7 @@ def check(rep, tier):
     rep.trust('pysym executor', 'z3')
     resolver_obligations(rep)
     predictor_obligations(rep)
+    nested_obligations(rep)
     strip_obligations(rep)
     init_obligations(rep)
     bounded(rep, tier)
